@@ -464,15 +464,38 @@ def r4_algebra(repo: Repo, rep):
             rep.undecided(R, fi.site(), fi.fq, f"__eq__ evaluable ({label})", repr(fr.ret)[:60])
             continue
         rep.check(R, bool(fr.ret) == want, fi.site(), fi.fq, f"__eq__ ({label}) is {want}", repr(fr.ret)[:60], f"eq {label}: {fr.ret!r}")
-    for mname, want in (("__eq__", "OrderedDict.__eq__(self, {o})"), ("__ne__", "OrderedDict.__ne__(self, {o})")):
+    # Space.__eq__ / __ne__ by evaluation on ordered mappings: equal iff the same (variable, dimension) pairs in the same order
+    def on_call_sp(e, name, args, kws, ev, f):
+        if name in ("OrderedDict.__eq__", "OrderedDict.__ne__", "collections.OrderedDict.__eq__", "collections.OrderedDict.__ne__") and args is not None and len(args) == 2 \
+                and all(isinstance(a, OrderedDict) for a in args):
+            same = list(args[0].items()) == list(args[1].items())
+            return same if name.endswith("__eq__") else not same
+        if name in ("dict.__eq__", "dict.__ne__", "Counter.__eq__", "Counter.__ne__") and args is not None and len(args) == 2 and all(isinstance(a, dict) for a in args):
+            same = dict(args[0]) == dict(args[1])  # order-insensitive
+            return same if name.endswith("__eq__") else not same
+        return None
+
+    def resolve_sp(e, ev, f):
+        if isinstance(e, ast.Name) and e.id == "NotImplemented":
+            return Opaque("NotImplemented")
+        return None
+    x2t1 = OrderedDict((("x", 2), ("t", 1)))
+    sp_cases = (("the same variables in the same order", x2t1, OrderedDict(x2t1), True), ("the same variables in another order", x2t1, OrderedDict((("t", 1), ("x", 2))), False),
+                ("another dimension", x2t1, OrderedDict((("x", 1), ("t", 1))), False), ("a sub-space", x2t1, OrderedDict((("x", 2),)), False))
+    for mname in ("__eq__", "__ne__"):
         fi = S.methods.get(mname)
         if fi is None:
             rep.violation(R, S.module.relpath, S.fq, f"Space.{mname} is order-sensitive", "not overridden: Counter/dict equality ignores order", mname)
             continue
         rep.saw(fi)
         o = fi.params[1]
-        for p in _ret_paths(fi):
-            rep.check(R, dump(p.ret) == want.format(o=o), fi.site(), fi.fq, f"Space.{mname} delegates to OrderedDict (order-sensitive)", dump(p.ret), dump(p.ret))
+        for label, a, b, equal in sp_cases:
+            want = equal if mname == "__eq__" else not equal
+            fr = Evaluator(resolve_sp, on_call_sp).run(fi.node.body, {"self": a, o: b})
+            if fr.ret is UNKNOWN or not fr.returned or not isinstance(fr.ret, bool):
+                rep.undecided(R, fi.site(), fi.fq, f"Space.{mname} evaluable ({label})", repr(fr.ret)[:60])
+                continue
+            rep.check(R, fr.ret == want, fi.site(), fi.fq, f"Space.{mname} for {label} is {want} (order-sensitive comparison)", repr(fr.ret), f"{mname} {label}: {fr.ret!r}")
     fi = S.methods.get("__mul__")
     if fi is None:
         raise AnalysisError("Space.__mul__ vanished")
@@ -655,8 +678,8 @@ def r8_no_derived_state(repo: Repo, rep):
                  why="a memoised `coordinates` dict survives .to() / __setitem__ and goes stale; a Space-typed `&` makes `y*x in x*y*t` False; joining Points that share a name labels the wrong columns")
     P, S = repo.cls(PTS), repo.cls(SPC)
     for name, fi in P.methods.items():
-        stores = sorted({dump(t) for a in ast.walk(fi.node) if isinstance(a, (ast.Assign, ast.AugAssign, ast.AnnAssign)) for t in (a.targets if isinstance(a, ast.Assign) else [a.target])
-                         if isinstance(t, ast.Attribute) and dump(t.value) == "self"})
+        stores = sorted({dump(t) for a in ast.walk(fi.node) if isinstance(a, (ast.Assign, ast.AugAssign, ast.AnnAssign)) for tt in (a.targets if isinstance(a, ast.Assign) else [a.target])
+                         for t in ast.walk(tt) if isinstance(t, ast.Attribute) and isinstance(t.ctx, ast.Store) and dump(t.value) == "self"})
         if not stores:
             continue
         rep.saw(fi)
